@@ -60,6 +60,12 @@ pub enum Call {
     StartInner { marker: String },
     NextInner,
     FinishInner,
+    /// Ldap::search() with the standard search options (size limit 11, time limit 6, typesOnly)
+    SearchOpts { marker: String },
+    /// drop the stream without finish(), keep the handle
+    DropStream,
+    /// SearchStream::start() called explicitly on the client's stream (documented as a no-op)
+    ExplicitStart,
 }
 
 #[derive(Clone, Copy, Debug, Serialize, Deserialize, PartialEq, Eq, Hash, PartialOrd, Ord)]
@@ -127,6 +133,18 @@ pub struct Plan {
     /// referral (if any) lists its URI twice and then a non-ASCII one
     #[serde(default)]
     pub dup_refs: bool,
+    /// every entry carries a value of this many octets (0 = the one-octet default)
+    #[serde(default)]
+    pub entry_value_size: usize,
+    /// every entry carries an attribute with this many values (0 = one)
+    #[serde(default)]
+    pub entry_values: usize,
+    /// the server sends the items but never the final result
+    #[serde(default)]
+    pub no_done: bool,
+    /// this many items (entries, every seventh a reference) instead of `items`
+    #[serde(default)]
+    pub many_items: usize,
 }
 
 impl Default for Plan {
@@ -146,6 +164,10 @@ impl Default for Plan {
             binary_payload: false,
             bare_intermediate: false,
             dup_refs: false,
+            entry_value_size: 0,
+            entry_values: 0,
+            no_done: false,
+            many_items: 0,
         }
     }
 }
@@ -199,6 +221,9 @@ pub enum Action {
     DropAll,
     /// make the scenario's raw byte string readable (hostile-input lanes)
     Inject,
+    /// the caller of client i's pending call goes away: its future is dropped (with the handle
+    /// and stream that were moved into it)
+    Cancel(usize),
 }
 
 #[derive(Clone, Debug, Serialize, Deserialize, PartialEq, Eq, Default)]
@@ -236,6 +261,9 @@ pub struct Scenario {
     /// raw bytes the server can send once (hostile-input lanes)
     #[serde(default)]
     pub raw_inject: Option<Vec<u8>>,
+    /// offer Cancel(i) while client i's call is pending (clients listed here)
+    #[serde(default)]
+    pub cancellable: Vec<usize>,
 }
 
 impl Scenario {
@@ -258,6 +286,7 @@ impl Scenario {
             oracles: Oracles::default(),
             server_closes_on_unbind: true,
             raw_inject: None,
+            cancellable: vec![],
         }
     }
 }
